@@ -82,8 +82,17 @@ def run_items(items, job):
     sb = app.Sandbox(job["work"])
     # verbose log levels write to stderr: keep the worker log small
     dn = os.open(os.devnull, os.O_WRONLY)
+    saved_err = os.dup(2)
     os.dup2(dn, 2)
     os.dup2(dn, 1)  # the API's verbose log levels write to the process's standard output
+    try:
+        return _run(items, job, sb, app, PyMarkdownApi, PyMarkdownApiException)
+    except BaseException:
+        os.dup2(saved_err, 2)  # let the traceback of a harness failure reach the shard log
+        raise
+
+
+def _run(items, job, sb, app, PyMarkdownApi, PyMarkdownApiException):
     R = PL.Result()
     for it in items:
         key, doc0 = PL.item_doc(it)
